@@ -119,12 +119,28 @@ theorem nurbsToBspline_bsplineToNurbs (P : List (List K)) (tol : K) (ht : 0 ≤ 
   simp [this]
 
 /-- … and the rational curve with unit weights evaluates (A3.1 + projection) to the same point as the
-    non-rational curve, on every non-empty span (`Σ N_i · 1 = 1`).
-    Surfaces and volumes: by the same lemma `linComb_append1` per direction – not formalised. -/
-theorem unit_weights_same_point_curve_partial (p : ℕ) (U : ℕ → K) (P : List (List K)) (k : ℕ) (u : K) (d : ℕ)
+    non-rational curve, on every non-empty span (`Σ N_i · 1 = 1`) … -/
+theorem unit_weights_same_point_curve (p : ℕ) (U : ℕ → K) (P : List (List K)) (k : ℕ) (u : K) (d : ℕ)
     (hd : ∀ pt ∈ P, pt.length = d) (hk : k < P.length) (hpk : p ≤ k) (hs : SpanOk U k u) :
     project (curvePointAt p U (bsplineToNurbs P) k u) = curvePointAt p U P k u := by
   rw [bsplineToNurbs_eq]; exact curvePointAt_unit p U P k u d hd hk hpk hs
+
+/-- … likewise the surface (A3.5, net of `su × sv` points, flat index `v + sv·u`) … -/
+theorem unit_weights_same_point_surface (pu pv : ℕ) (Uu Uv : ℕ → K) (su sv : ℕ) (P : List (List K))
+    (ku kv : ℕ) (u v : K) (d : ℕ) (hd : ∀ pt ∈ P, pt.length = d) (hlen : P.length = su * sv)
+    (hku : ku < su) (hkv : kv < sv) (hpu : pu ≤ ku) (hpv : pv ≤ kv) (hsu : SpanOk Uu ku u) (hsv : SpanOk Uv kv v) :
+    project (surfacePointAt pu pv Uu Uv sv (bsplineToNurbs P) ku kv u v) = surfacePointAt pu pv Uu Uv sv P ku kv u v := by
+  rw [bsplineToNurbs_eq]; exact surfacePointAt_unit pu pv Uu Uv su sv P ku kv u v d hd hlen hku hkv hpu hpv hsu hsv
+
+/-- … and the volume (net of `su × sv × sw` points, flat index `v + sv·(u + su·w)`). -/
+theorem unit_weights_same_point_volume (pu pv pw : ℕ) (Uu Uv Uw : ℕ → K) (su sv sw : ℕ) (P : List (List K))
+    (ku kv kw : ℕ) (u v w : K) (d : ℕ) (hd : ∀ pt ∈ P, pt.length = d) (hlen : P.length = su * sv * sw)
+    (hku : ku < su) (hkv : kv < sv) (hkw : kw < sw) (hpu : pu ≤ ku) (hpv : pv ≤ kv) (hpw : pw ≤ kw)
+    (hsu : SpanOk Uu ku u) (hsv : SpanOk Uv kv v) (hsw : SpanOk Uw kw w) :
+    project (volumePointAt pu pv pw Uu Uv Uw su sv (bsplineToNurbs P) ku kv kw u v w) =
+      volumePointAt pu pv pw Uu Uv Uw su sv P ku kv kw u v w := by
+  rw [bsplineToNurbs_eq]
+  exact volumePointAt_unit pu pv pw Uu Uv Uw su sv sw P ku kv kw u v w d hd hlen hku hkv hkw hpu hpv hpw hsu hsv hsw
 
 /-- Multiplying all weights by one non-zero constant multiplies every homogeneous control point by
     it … -/
